@@ -17,6 +17,8 @@ THEOREMS = [
     "Rtosc.Osc.timetag_encode",
     "Rtosc.Osc.messageLength_bundle",
     "Rtosc.Osc.message_not_bundle",
+    "Rtosc.Osc.decompose_encode",
+    "Rtosc.Osc.compose_decompose",
     "Rtosc.Osc.appendBundle_eq_spec",
 ]
 HARNESS = {"src": ["bundle.cpp"], "exclude": ["src/cpp/subtree-serialize.cpp"], "deps": ["common.h", "bundle_common.h"]}
@@ -44,7 +46,8 @@ LEVEL_TEXT = ("Lean theorems, by induction over the element list for bundles nes
               "bundle by one element. The model is compared with the compiled implementation (ASan/UBSan, exact-size heap "
               "blocks) on generated element trees and the round trip is evaluated on the implementation's output by an "
               "independent Python bundle codec")
-LEVEL_NOTE = ("bundle_eq_spec is proved under the precondition that nested-bundle elements are followed by a zero word "
+LEVEL_NOTE = ("Trusted: Lean kernel; the hand-written model is tied to the code by differential execution only; see "
+              "evidence trusted_base. bundle_eq_spec is proved under the precondition that nested-bundle elements are followed by a zero word "
               "(known finding C08-K4: rtosc_bundle finds an element's size with rtosc_message_length(msg,-1), which for "
               "a bundle reads one word past its end); the counterexample is a theorem as well")
 MAGIC = b"#bundle\0"
@@ -304,7 +307,7 @@ def generate(rng, tier, stats):
         stats["compose"] += 1
         yield " ".join(["C"] + tokens(t))
     # random trees
-    for _ in range(5000 if quick else 250000):
+    for _ in range(20000 if quick else 300000):
         t = set_caps(rng, rand_tree(rng, rng.randint(0, 4), rng.choice([1, 2, 3, 4, 8])), top_cap_fn(rng, stats))
         count(stats, t)
         stats["compose"] += 1
@@ -317,7 +320,7 @@ def generate(rng, tier, stats):
         stats["k4_stream"] += 1
         yield " ".join(["C"] + tokens(t))
     # append_bundle
-    for _ in range(1200 if quick else 40000):
+    for _ in range(4000 if quick else 60000):
         base = rand_tree(rng, rng.randint(0, 1), 3, small=True)
         msgs = [rand_msg(rng, small=True) for _ in range(rng.randint(1, 4))]
         need = len(enc(("B", base[1], 0, [strip_caps(k) for k in base[3]]))) + sum(4 + len(m) for m in msgs)
@@ -390,7 +393,7 @@ def oracle(op, out):
         if t[2] < size:
             exp = "r=0 b=%s" % hexz(b"\0" * t[2])
         else:
-            exp = "r=%d b=%s %s" % (size, hexz(e + b"\0" * (t[2] - size)), expected_readers(t, size))
+            exp = "r=%d b=%s %s" % (size, hx(e), expected_readers(t, size))
             if t[2] >= size + 4:
                 exp += " nz=%d" % len(t[3])
         if out == exp:
@@ -426,7 +429,7 @@ def oracle(op, out):
                 ln += 4 + len(m)
                 cur = ("B", cur[1], None, cur[3] + [("m", m)])
             rets.append(str(ln))
-        exp = "r=%d a=%s b=%s" % (r0, ",".join(rets) if rets else "-", hexz(bytes(buf)))
+        exp = "r=%d a=%s b=%s" % (r0, ",".join(rets) if rets else "-", hexz(bytes(buf)) if ln == 0 else hx(bytes(buf[:ln])))
         if ln >= 16:
             exp += " " + expected_readers(cur, ln)
         if out == exp:
